@@ -1580,18 +1580,26 @@ return 1;""",
         # Add function pre_call code.
         need_blank0 = True
         pre_call_deref = ""
+        result_pre_call = []
         if CXX_subprogram == "function":
             allocate_result_blk = self.add_stmt_capsule(ast, result_blk, fmt_result)
             # Result pre_call is added once before all default argument cases.
             if allocate_result_blk and allocate_result_blk.pre_call:
-                PY_code.extend(["", "// result pre_call"])
-                util.append_format_cmds(PY_code, allocate_result_blk, "pre_call", fmt_result)
+                result_pre_call.extend(["", "// result pre_call"])
+                util.append_format_cmds(result_pre_call, allocate_result_blk, "pre_call", fmt_result)
                 need_blank0 = False
                 pre_call_deref = "*"
         if result_blk.pre_call:
             if need_blank0:
-                PY_code.extend(["", "// result pre_call"])
-            PY_code.extend(result_blk.pre_call)
+                result_pre_call.extend(["", "// result pre_call"])
+            result_pre_call.extend(result_blk.pre_call)
+        if found_default:
+            # Once before all default argument cases; the locals of
+            # each case are in their own scope.
+            PY_code.extend(result_pre_call)
+            result_pre_call = []
+        # else: written after the declarations of the single call,
+        # a 'goto fail' in it must not jump over an initialization.
 
         # If multiple calls (because of default argument values),
         # declare return value once; else delare on call line.
@@ -1656,6 +1664,11 @@ return 1;""",
                 PY_code.extend(implied_code)
                 need_blank = True
             fmt.PY_call_list = call_list
+
+            if result_pre_call:
+                PY_code.extend(result_pre_call)
+                result_pre_call = []
+                need_blank = True
 
             if options.debug and need_blank:
                 PY_code.append("")
